@@ -284,7 +284,7 @@ def c02(tier):
                         if d != e:
                             clamp_cases += 1
                             same = real[rdA.index(e)]
-                            if c != same and c != line["a"][e - 1]:
+                            if c != same:
                                 ck.violation("request depth %d on a server with limit %d answered %s, but depth %d answers %s" % (d, dmax, c, e, same),
                                              dict(case_id(g, wi, qi, d, defs), observed=c, expected=same, global_depth=dmax))
             # clamp across servers: (r, g2) behaves as (eff(r, g2), g) on the same stored state
@@ -303,7 +303,7 @@ def c02(tier):
                     e = eff(d, g2)
                     c = rb["res"][qi][di]
                     same = ra["res"][qi][rdA.index(e)]
-                    if c != same and c != line["a"][e - 1]:
+                    if c != same:
                         ck.violation("request depth %d on a server with limit %d answered %s; a server with limit %d answers %s" % (d, g2, c, e, same),
                                      dict(case_id(g, wi, qi, d, defs), observed=c, expected=same, global_depth=g2))
                     elif d != e and c == "I":
@@ -341,7 +341,8 @@ def c03(tier):
         if r["q"] >= 0:
             base = r["base"]
             for kind, s in (("transient", r.get("ft", "")), ("persistent", r.get("fp", "")), ("canceled", r.get("fc", "")),
-                            ("SQL statement, transient", r.get("st", "")), ("SQL statement, persistent", r.get("sp", ""))):
+                            ("SQL statement, transient", r.get("st", "")), ("SQL statement, persistent", r.get("sp", "")),
+                            ("SQL statement, lock conflict", r.get("sl", ""))):
                 for k, c in enumerate(s, 1):
                     ck.evaluations += 1
                     positions += 1
@@ -376,7 +377,7 @@ def c03(tier):
     wide_faults(ck, binary, tier)
     ck.rule = ("for every sampled case the fault-free run is counted (N storage calls), then call k = 1..N+1 fails once, "
                "persistently, and with context.Canceled; at the deepest request depth the same sweep one layer down, on the SQL statements inside the "
-               "database driver (once, and from the k-th statement on); on nodes with more subject sets than one storage statement fetches (1001..3001) every SQL "
+               "database driver (once, from the k-th statement on, and once with SQLite's lock-conflict error); on nodes with more subject sets than one storage statement fetches (1001..3001) every SQL "
                "statement of the check fails once (Traverse.tla FaultClosed: error or the complete result, never a prefix); non-trivial: the fault changed the outcome")
     ck.assumptions = ["faults are injected at the Manager/Traverser interface the engine uses; inside the SQL driver only for the wide-node cases",
                       "call numbering follows arrival order under the engine's own concurrency"]
